@@ -174,12 +174,21 @@ def check(ctx):
                 ok = any(tm.fold(rets[-1].live,
                                  lambda t, p=p: p if t in da else None)
                          is False for p in (True, False))
-            ctx.ob("C03.2", f, ok,
-                   "a rank test on the singular values raises "
-                   "GeometryException and guards the return" if ok else
-                   "no GeometryException is raised in dependence of the "
-                   "singular values before the result is returned",
-                   key="C03.2:degenerate-guard")
+                if not ok and deg[0].loops:
+                    # the rank test walks over the singular values one by
+                    # one (a counting loop that raises): which values lead
+                    # to the raise is carried by loop state — not modelled
+                    ctx.undecidable("C03.2", deg[0], "the rank test is a "
+                                    "loop over the singular values that "
+                                    "raises from inside (loop-carried count)")
+                    ok = None
+            if ok is not None:
+                ctx.ob("C03.2", f, ok,
+                     "a rank test on the singular values raises "
+                     "GeometryException and guards the return" if ok else
+                     "no GeometryException is raised in dependence of the "
+                     "singular values before the result is returned",
+                     key="C03.2:degenerate-guard")
         else:
             ok = tm.is_const(ret.args[2]) and ret.args[2].args[0] == "float" \
                 and ret.args[2].args[1] == 1.0
